@@ -82,7 +82,7 @@ fn pick_scenario(p: &dyn Property, seed: u64) -> &'static str {
 // worker
 // ------------------------------------------------------------------------------------------------
 
-fn minimise(p: &dyn Property, scenario: &str, seed: u64, program: Json, clause: &str, budget_ms: u128) -> (Json, u64) {
+fn minimise(p: &dyn Property, scenario: &str, seed: u64, program: Json, clause: &str, shape: &str, budget_ms: u128) -> (Json, u64) {
     let start = Instant::now();
     let mut cur = program;
     let mut cur_seed = seed;
@@ -99,7 +99,7 @@ fn minimise(p: &dyn Property, scenario: &str, seed: u64, program: Json, clause: 
                 let s = seed.wrapping_add(ds);
                 let ctx = RunCtx { seed: s, tier: Tier::Quick, trace: false, program: Some(c.clone()) };
                 let r = p.run_one(scenario, &ctx);
-                if r.harness_error.is_none() && r.violations.iter().any(|v| v.clause == clause) {
+                if r.harness_error.is_none() && r.violations.iter().any(|v| v.clause == clause && v.shape == shape) {
                     cur = c;
                     cur_seed = s;
                     continue 'outer;
@@ -229,10 +229,10 @@ fn cmd_worker(args: &[String]) -> i32 {
             *n += 1;
             if *n == 1 {
                 // first time this worker sees the signature: minimise and report with replay data
-                let (minp, mseed) = minimise(p, scenario, seed, r.program.clone(), &v.clause, 4000);
+                let (minp, mseed) = minimise(p, scenario, seed, r.program.clone(), &v.clause, &v.shape, 4000);
                 let ctx2 = RunCtx { seed: mseed, tier, trace: true, program: Some(minp.clone()) };
                 let r2 = p.run_one(scenario, &ctx2);
-                let v2 = r2.violations.iter().find(|x| x.clause == v.clause).cloned();
+                let v2 = r2.violations.iter().find(|x| x.clause == v.clause && x.shape == v.shape).cloned();
                 let (fv, fprog, fseed, ftrace) = match v2 {
                     Some(v2) => (v2, r2.program.clone(), mseed, r2.trace),
                     None => (v.clone(), r.program.clone(), seed, vec![]),
